@@ -284,6 +284,9 @@ func (r *Run) hook(name string, ctx context.Context) {
 	}
 }
 
+// ErrShutdownStuck is returned by Exec in stress mode when Shutdown did not return within 30 s.
+var ErrShutdownStuck = errors.New("stress run: Shutdown did not return within the 30 s wall-clock watchdog")
+
 // hookCtx is a request context whose Err() returns its (possibly stale by then) answer after
 // passing through the "ctx.Err" hook point.
 type hookCtx struct {
@@ -559,7 +562,24 @@ func (r *Run) Exec() (stuck []string, err error) {
 		}
 	}
 	r.add(Ev{Kind: "shutdown_call"})
-	serr := proc.Shutdown(context.Background())
+	var serr error
+	if r.Stress {
+		// real time: Shutdown gets a 30 s wall-clock watchdog so that the process can go on; the run
+		// is then inconclusive (the sound verdict on a Shutdown that never returns is the bubble's
+		// logical deadlock detector)
+		done := make(chan error, 1)
+		go func() { done <- proc.Shutdown(context.Background()) }()
+		select {
+		case serr = <-done:
+		case <-time.After(30 * time.Second):
+			for _, c := range r.cancels {
+				c()
+			}
+			return stuck, ErrShutdownStuck
+		}
+	} else {
+		serr = proc.Shutdown(context.Background())
+	}
 	r.add(Ev{Kind: "shutdown_ret", Err: serr})
 	if r.Stress {
 		select {
